@@ -31,6 +31,7 @@ Definition canon_builder1 (b : builder1) : Prop :=
   canon_grace (b_grace b) /\ (b_enabled b = true -> b_relays b <> []).
 Definition canon_proposer1 (q : proposer1) : Prop := canon_opt canon_builder1 (q_builder q).
 Definition canon_config1 (c : config1) : Prop :=
+  nodupb (map fst (c1_props c)) = true /\
   Forall (fun kq => canon_opt canon_proposer1 (snd kq)) (c1_props c) /\
   exists d, c1_default c = Some d /\ canon_proposer1 d.
 
@@ -366,7 +367,7 @@ Qed.
 
 Lemma config1_rt : forall c, canon_config1 c -> config1_of_json (config1_to_json c) = Some c.
 Proof.
-  intros [ps def] [Hps [d [Hd Hcd]]]. cbn [c1_props c1_default] in *. subst def.
+  intros [ps def] [Hnd [Hps [d [Hd Hcd]]]]. cbn [c1_props c1_default] in *. subst def.
   pose proof (d_map_rt (d_nullable proposer1_of_json) (nullable_to_json proposer1_to_json)
                        (canon_opt canon_proposer1) nullable1_rt ps Hps) as Hm.
   pose proof (proposer1_rt d Hcd) as Hd'.
@@ -374,16 +375,18 @@ Proof.
   rewrite proposer1_to_json_obj in *. set (df := proposer1_fields d) in *. clearbody df.
   destruct ps as [|p0 ps].
   - cbn -[proposer1_of_json]. rewrite Hd'. reflexivity.
-  - cbn -[d_map map proposer1_of_json]. rewrite Hm. cbn -[proposer1_of_json]. rewrite Hd'. reflexivity.
+  - cbn -[d_map map proposer1_of_json nodupb]. rewrite Hm. rewrite Hnd.
+    cbn -[proposer1_of_json]. rewrite Hd'. reflexivity.
 Qed.
 
 Lemma config1_canon : forall j c, config1_of_json j = Some c -> canon_config1 c.
 Proof.
   intros j c H. destruct j as [| | | | |o|]; try discriminate. unfold config1_of_json in H.
   destruct (d_map (d_nullable proposer1_of_json) (field FPropCfg o)) as [ps|] eqn:Ep; try discriminate.
+  destruct (nodupb (map fst ps)) eqn:End; cbn [negb] in H; try discriminate.
   destruct (field FDefault o) eqn:Ed; try discriminate;
     match type of H with option_map _ ?x = _ => destruct x as [d|] eqn:Edd end;
-    try discriminate; injection H as <-; (split; cbn;
+    try discriminate; injection H as <-; (split; [exact End|]; split; cbn;
       [eapply d_map_Forall; [exact nullable1_canon | exact Ep]
       | exists d; split; [reflexivity | eapply proposer1_canon, Edd]]).
 Qed.
@@ -465,4 +468,10 @@ Proof.
   destruct (d_map base_relay_of_json (field FRelays o)) eqn:Er; try discriminate.
   destruct (d_arr proposer_of_json (field FProposers o)); try discriminate.
   injection H as <-. cbn [e_relays]. rewrite Hm in Er. eapply d_map_keys, Er.
+Qed.
+
+(* an accepted legacy document has one entry per public key *)
+Lemma unmarshal_v1_wf : forall j c, unmarshal j = Some (CV1 c) -> wf_config1 c.
+Proof.
+  intros j c H. apply unmarshal_canon in H. destruct H as [H _]. apply nodupb_sound, H.
 Qed.
